@@ -2,6 +2,7 @@ package main
 
 import (
 	"fmt"
+	"go/token"
 	"go/types"
 	"sort"
 	"strings"
@@ -103,6 +104,7 @@ func ruleGoRec(p *Prog, r *RuleResult) {
 			}
 			if d := entryGuard(target); d != nil {
 				r.ok(fmt.Sprintf("%s -> %s recovers at entry", key, p.FnName(target)), p.IPos(g))
+				checkWorkerSends(p, r, key, g, target)
 				return
 			}
 			r.fail(key, p.IPos(g), fmt.Sprintf("goroutine %s installs no recover() handler at its entry: a panic raised while it processes (possibly forged) data terminates the whole process", p.FnName(target)))
@@ -344,4 +346,125 @@ func isSyntheticSelectPanic(pi *ssa.Panic) bool {
 		return strings.Contains(c.Value.String(), "blocking select matched no case")
 	}
 	return false
+}
+
+// checkWorkerSends: a goroutine that reports through a channel must never block on the send (a blocked worker never
+// reaches its WaitGroup.Done and the parent waits forever). Accepted: the send sits in a select with default, or the
+// channel is created with a capacity that is the bound of the loop that starts the workers.
+func checkWorkerSends(p *Prog, r *RuleResult, key string, g *ssa.Go, target *ssa.Function) {
+	fns := append([]*ssa.Function{target}, target.AnonFuncs...)
+	for _, fn := range fns {
+		eachInstr(fn, func(i ssa.Instruction) {
+			snd, ok := i.(*ssa.Send)
+			if !ok {
+				return
+			}
+			mk := traceMakeChan(snd.Chan, 0)
+			skey := key + "#chan-send"
+			if mk == nil {
+				r.fail(skey, p.IPos(snd), "a library goroutine sends on a channel whose creation cannot be found: cannot establish that the send never blocks before WaitGroup.Done")
+				return
+			}
+			// loop bound of the go statement
+			var bound ssa.Value
+			if loop := cycleOf(g.Block()); loop != nil {
+				for lb := range loop {
+					if ifi := blockIf(lb); ifi != nil {
+						atom, _ := condAtom(ifi.Cond)
+						if bo, ok := atom.(*ssa.BinOp); ok && (bo.Op == token.LSS || bo.Op == token.GTR || bo.Op == token.NEQ) {
+							if isInduction(bo.X) {
+								bound = bo.Y
+							} else if isInduction(bo.Y) {
+								bound = bo.X
+							}
+						}
+					}
+				}
+			}
+			size := mk.Size
+			for {
+				if cv, ok := size.(*ssa.Convert); ok {
+					size = cv.X
+					continue
+				}
+				break
+			}
+			if bound != nil && size == bound {
+				r.ok(skey+" on a channel with one slot per worker", p.IPos(snd))
+				return
+			}
+			r.fail(skey, p.IPos(snd), "a worker goroutine sends its result on a channel whose capacity is not the number of workers: a second sender blocks forever before its WaitGroup.Done, so the enclosing call never returns")
+		})
+	}
+}
+
+// traceMakeChan follows a channel value back to its make(chan) through closure bindings and local cells.
+func traceMakeChan(v ssa.Value, d int) *ssa.MakeChan {
+	if d > 8 {
+		return nil
+	}
+	switch x := v.(type) {
+	case *ssa.MakeChan:
+		return x
+	case *ssa.UnOp:
+		if x.Op == token.MUL {
+			return traceMakeChan(x.X, d+1)
+		}
+	case *ssa.Alloc:
+		for _, ref := range *x.Referrers() {
+			if st, ok := ref.(*ssa.Store); ok && st.Addr == ssa.Value(x) {
+				if mk := traceMakeChan(st.Val, d+1); mk != nil {
+					return mk
+				}
+			}
+		}
+	case *ssa.Phi:
+		for _, e := range x.Edges {
+			if mk := traceMakeChan(e, d+1); mk != nil {
+				return mk
+			}
+		}
+	case *ssa.ChangeType:
+		return traceMakeChan(x.X, d+1)
+	case *ssa.FreeVar:
+		fn := x.Parent()
+		idx := -1
+		for i, fv := range fn.FreeVars {
+			if fv == x {
+				idx = i
+			}
+		}
+		if fn.Parent() == nil || idx < 0 {
+			return nil
+		}
+		var out *ssa.MakeChan
+		eachInstr(fn.Parent(), func(i ssa.Instruction) {
+			if mc, ok := i.(*ssa.MakeClosure); ok && mc.Fn == fn && idx < len(mc.Bindings) && out == nil {
+				out = traceMakeChan(mc.Bindings[idx], d+1)
+			}
+		})
+		return out
+	case *ssa.Parameter:
+		// parameter of the goroutine function: look at the go statement's argument
+		fn := x.Parent()
+		idx := -1
+		for i, pr := range fn.Params {
+			if pr == x {
+				idx = i
+			}
+		}
+		if fn.Parent() == nil || idx < 0 {
+			return nil
+		}
+		var out *ssa.MakeChan
+		eachInstr(fn.Parent(), func(i ssa.Instruction) {
+			if g, ok := i.(*ssa.Go); ok && out == nil {
+				if mc, ok := g.Call.Value.(*ssa.MakeClosure); ok && mc.Fn == fn && idx < len(g.Call.Args) {
+					out = traceMakeChan(g.Call.Args[idx], d+1)
+				}
+			}
+		})
+		return out
+	}
+	return nil
 }
